@@ -94,7 +94,10 @@ Definition mx_prop (c : mx_case) : bool :=
   (* every attempt ended exactly once: acquired (and released) or failed *)
   Nat.eqb (count_code 0 (x_ev c) + count_code 2 (x_ev c)) (List.length (x_thr c)) &&
   Nat.eqb (count_code 0 (x_ev c)) (count_code 1 (x_ev c)) &&
-  nodup_nat (map snd (filter (fun '(k, _) => (k =? 0) || (k =? 2)) (x_ev c))).
+  nodup_nat (map snd (filter (fun '(k, _) => (k =? 0) || (k =? 2)) (x_ev c))) &&
+  (* ... and is one of the attempts of the case *)
+  forallb (fun a => Nat.ltb a (List.length (x_thr c)))
+          (map snd (filter (fun '(k, _) => (k =? 0) || (k =? 2)) (x_ev c))).
 
 Definition multi_handle (c : mx_case) : bool := existsb (fun '(_, h, _) => negb (Nat.eqb h 0)) (x_thr c).
 Definition multi_member (c : mx_case) : bool := existsb (fun '(m, _, _) => negb (Nat.eqb m 0)) (x_thr c).
